@@ -57,6 +57,10 @@ def run(ck):
     # terminator (not inside the faulty unit's literals), every execution-error path reports execute's error once (C06-R)
     import c06
     c06.rule_R(ck, lib, "C03-C06R")
+    # ... and with the library's own error handling a report is a queue entry: none is dropped or merged (push rule of C09)
+    import c09
+    with ck.under("C09-", "C03-C09"):
+        c09.rule_push(ck, lib, c09.storage_place(ck, lib))
 
 
 def impl_fn(lib, self_ty, target):
